@@ -54,8 +54,8 @@ SLICES = {
     },
 }
 MODEL = {
-    "quick": V(reps=("none", "n2", "vs", "vc")),
-    "thorough": V(reps=("none", "n2", "n3", "vg", "vs", "vc")),
+    "quick": V(reps=("none", "vs", "vc"), spell=("abs",)),
+    "thorough": V(reps=("none", "n2", "vs", "vc"), spell=("abs",)),
 }
 
 
